@@ -334,7 +334,7 @@ theorem monok_micro (hist : List Out) (v v' : View) (i : Nat) (c0 : Core) (h : M
     show monRun none (hist ++ (v.out ++ [.write i c0.frag s c0.nfrags])) = some m'
     rw [← List.append_assoc]
     exact monRun_snoc hm hs
-  | fin o => exact monok_fin hist v i o h
+  | fin o _ => exact monok_fin hist v i o h
 
 /-- both invariants together: the lock discipline and the monitor coupling -/
 def Both (hist : List Out) (st : St) : Prop := Inv2 st ∧ MonOK hist (view st)
@@ -465,15 +465,16 @@ theorem ti_add (m : Mon) (cs : List Core) (c : Core) (ht : TI m cs) (hp : c.phas
     · exact ht.mid x h hph
     · simp only [List.mem_singleton] at h; subst h; left; exact hf
 
-/-- one event: both invariants survive, with the outputs of the previous step moved into the history -/
-theorem both_step (hist : List Out) (st : St) (e : Ev) (h : Both hist st) : Both (hist ++ st.out) (step st e) := by
+/-- the immediate effect of one event: both invariants survive, with the outputs of the previous step moved into
+    the history -/
+theorem both_pre (hist : List Out) (st : St) (e : Ev) (h : Both hist st) : Both (hist ++ st.out) (pre st e).1 := by
   have h0 : Both (hist ++ st.out) { st with out := [] } :=
     ⟨inv2_congr st _ rfl rfl rfl rfl h.1, monok_reset hist st h.2⟩
   generalize hist ++ st.out = H at h0 ⊢
   clear h
   cases e with
   | start id key blocking nfrags timeout =>
-    simp only [step]
+    simp only [pre]
     split
     · exact h0
     rename_i hfresh
@@ -490,8 +491,7 @@ theorem both_step (hist : List Out) (st : St) (e : Ev) (h : Both hist st) : Both
       · intro c hc
         obtain ⟨r, hr, rfl⟩ := List.mem_map.mp hc
         exact hnotin r hr
-    · apply both_settle
-      refine ⟨⟨?_, ?_⟩, ?_⟩
+    · refine ⟨⟨?_, ?_⟩, ?_⟩
       · simp only [List.map_append, List.map_cons, List.map_nil]
         exact List.nodup_append.mpr ⟨h0.1.1, by simp, fun a ha b hb => by
           simp at hb; subst hb; intro he; subst he
@@ -508,29 +508,27 @@ theorem both_step (hist : List Out) (st : St) (e : Ev) (h : Both hist st) : Both
         have := ti_add m (view ({ st with out := [] } : St)).cores (core { id, key, blocking, nfrags, timeout }) (ht htr) rfl rfl
         simpa [view] using this
   | rxAck k =>
-    simp only [step]
+    simp only [pre]
     split
-    · apply both_settle
-      refine ⟨?_, ?_⟩
+    · refine ⟨?_, ?_⟩
       · exact inv2_map ({ st with out := [] } : St) _ (fun r => if (r.phase == Phase.waitAck) = true then { r with phase := Phase.acked } else r) h0.1 rfl rfl rfl rfl
           (fun r => by split <;> rfl) (fun r l => by split <;> (cases l <;> rfl))
           (phaseHold_toAcked (fun r => r.phase == Phase.waitAck) (fun r hc => by simpa using hc))
       · exact monok_map H ({ st with out := [] } : St) _ _ (similar_toAcked (fun r => r.phase == Phase.waitAck) (fun r hc => by simpa using hc))
           rfl rfl id h0.2
-    · exact both_settle _ _ _ h0
+    · exact h0
   | rxRsp key =>
-    simp only [step]
+    simp only [pre]
     generalize hst1 : (if ({ st with out := [] } : St).transport = true then emit ({ st with out := [] } : St) Out.wack else ({ st with out := [] } : St)) = st1
     have h1 : Both H st1 := by
       rw [← hst1]; split
       · exact ⟨inv2_congr ({ st with out := [] } : St) _ rfl rfl rfl rfl h0.1, monok_emit_other H _ _ rfl h0.2⟩
       · exact h0
     cases hfind : st1.listeners.find? (fun l => l.2 == key) with
-    | none => exact both_settle _ _ _ h1
+    | none => exact h1
     | some p =>
       obtain ⟨i, k⟩ := p
       simp only []
-      apply both_settle
       have h2 : Both H (updReq { st1 with listeners := st1.listeners.filter (·.1 != i) } i fun r => { r with got := .rsp }) := by
         refine ⟨?_, ?_⟩
         · exact inv2_map st1 _ (fun r => if (r.id == i) = true then { r with got := Got.rsp } else r) h1.1 rfl rfl rfl rfl
@@ -541,12 +539,11 @@ theorem both_step (hist : List Out) (st : St) (e : Ev) (h : Both hist st) : Both
       · exact ⟨inv2_congr _ _ rfl rfl rfl rfl h2.1, h2.2⟩
       · exact h2
   | tick =>
-    simp only [step]
+    simp only [pre]
     cases nextDeadline ({ st with out := [] } : St) with
     | none => exact h0
     | some d =>
       simp only []
-      apply both_settle
       apply both_foldl_unwind
       refine ⟨?_, ?_⟩
       · exact inv2_map ({ st with out := [] } : St) _ (fun r => if (r.phase == Phase.waitAck && decide (r.deadline ≤ max ({ st with out := [] } : St).now d)) = true
@@ -556,27 +553,25 @@ theorem both_step (hist : List Out) (st : St) (e : Ev) (h : Both hist st) : Both
       · exact monok_map H ({ st with out := [] } : St) _ _ (similar_toAcked (fun r => r.phase == Phase.waitAck && decide (r.deadline ≤ max ({ st with out := [] } : St).now d))
           (fun r hc => by simp at hc; exact hc.1)) rfl rfl id h0.2
   | cancel id =>
-    simp only [step]
+    simp only [pre]
     cases getReq ({ st with out := [] } : St) id with
     | none => exact h0
     | some r =>
       simp only []
       split
       · exact h0
-      · exact both_settle _ _ _ (both_unwind _ _ _ _ h0)
+      · exact both_unwind _ _ _ _ h0
   | close =>
-    simp only [step]
+    simp only [pre]
     have hclose : ∀ s' : St, Both H s' →
         Both H { (emit s' .closeOut) with transport := false, pack := 0, isOpen := false } := fun s' hb =>
       ⟨inv2_congr _ _ rfl rfl rfl rfl hb.1,
        monok_same H (emit s' .closeOut) _ rfl rfl (fun h => by cases h) (monok_emit_other H _ _ rfl hb.2)⟩
     split
-    · apply both_settle
-      split
+    · split
       · exact hclose _ h0
       · exact h0
-    · apply both_settle
-      have hm : ∀ (ids : List Nat) (s' : St), s'.reqs = ({ st with out := [] } : St).reqs.map (fun r => if ids.contains r.id = true then { r with got := Got.cancelled } else r) →
+    · have hm : ∀ (ids : List Nat) (s' : St), s'.reqs = ({ st with out := [] } : St).reqs.map (fun r => if ids.contains r.id = true then { r with got := Got.cancelled } else r) →
           s'.bq = ({ st with out := [] } : St).bq → s'.mq = ({ st with out := [] } : St).mq → s'.tq = ({ st with out := [] } : St).tq → s'.out = ({ st with out := [] } : St).out → s'.transport = ({ st with out := [] } : St).transport → Both H s' :=
         fun ids s' e1 e2 e3 e4 e5 e6 =>
         ⟨inv2_map ({ st with out := [] } : St) s' _ h0.1 e1 e2 e3 e4 (fun r => by split <;> rfl) (fun r l => by split <;> (cases l <;> rfl))
@@ -586,15 +581,21 @@ theorem both_step (hist : List Out) (st : St) (e : Ev) (h : Both hist st) : Both
       · exact hclose _ (hm (({ st with out := [] } : St).listeners.map (·.1)) _ rfl rfl rfl rfl rfl rfl)
       · exact hm (({ st with out := [] } : St).listeners.map (·.1)) _ rfl rfl rfl rfl rfl rfl
   | lost =>
-    simp only [step]
-    apply both_settle
+    simp only [pre]
     split
     · exact ⟨inv2_congr ({ st with out := [] } : St) _ rfl rfl rfl rfl h0.1, monok_same H ({ st with out := [] } : St) _ rfl rfl id h0.2⟩
     · refine ⟨inv2_congr ({ st with out := [] } : St) _ rfl rfl rfl rfl h0.1, ?_⟩
       exact monok_emit_other H _ _ rfl (monok_same H ({ st with out := [] } : St) { st with isOpen := false, out := [] } rfl rfl id h0.2)
   | setReset b =>
-    simp only [step]
+    simp only [pre]
     exact ⟨inv2_congr ({ st with out := [] } : St) _ rfl rfl rfl rfl h0.1, monok_same H ({ st with out := [] } : St) _ rfl rfl id h0.2⟩
+
+/-- one event -/
+theorem both_step (hist : List Out) (st : St) (e : Ev) (h : Both hist st) : Both (hist ++ st.out) (step st e) := by
+  rw [step_eq_pre]
+  cases (pre st e).2
+  · exact both_pre hist st e h
+  · exact both_settle _ _ _ (both_pre hist st e h)
 
 /-! ### every history -/
 
